@@ -1,0 +1,182 @@
+//go:build verif
+
+package hsmsss
+
+import (
+	"context"
+	"errors"
+	"net"
+	"time"
+
+	"github.com/arloliu/go-secs/v2/hsms"
+)
+
+// This file exists only under the `verif` build tag. It exports seams for the external
+// verification harness (/verif): it adds code only and changes no production behaviour.
+
+// VerifLinktestFailureStep exposes the pure linktest failure reducer.
+func VerifLinktestFailureStep(suppress bool, recvNow, sentAt, inflight int64, fails int, recvAtLastFail int64) (int, int64, bool) {
+	return linktestFailureStep(suppress, recvNow, sentAt, inflight, fails, recvAtLastFail)
+}
+
+// VerifLinktestDisconnectRecheck exposes the pure pre-disconnect re-check.
+func VerifLinktestDisconnectRecheck(suppress bool, inflight, recvNow, sentAt int64) bool {
+	return linktestDisconnectRecheck(suppress, inflight, recvNow, sentAt)
+}
+
+// VerifLinktestObs scripts one iteration of the runLinktest loop body.
+//
+// Receive stamps are abstract: a value < VerifStampFuture is stored verbatim (it is smaller
+// than any real monotonic send stamp because the driver waits past it before starting), the
+// value VerifStampFuture is stored as a stamp far in the future (greater than any send stamp).
+type VerifLinktestObs struct {
+	PreInflight   int64 // DataMsgInflight() seen by suppression rule 2 (suppress on only)
+	ProbeFails    bool  // WriteMessage returns a (T6) error
+	RecvNow       int64 // lastRecvStamp at the failure snapshot
+	Inflight      int64 // DataMsgInflight() at the failure snapshot
+	RecvFinal     int64 // lastRecvStamp at the final pre-disconnect re-check
+	InflightFinal int64 // DataMsgInflight() at the final pre-disconnect re-check
+}
+
+// VerifStampFuture marks a receive stamp that lies after every probe's send stamp.
+const VerifStampFuture = int64(1) << 40
+
+// VerifStampSmallMax bounds the verbatim (past) receive stamps a script may use.
+const VerifStampSmallMax = int64(1) << 20
+
+// VerifLinktestIter is what one loop iteration did, as seen through the metrics and TCPDown.
+type VerifLinktestIter struct {
+	Suppressed, Send, Err, Credited, Recv uint64
+	Down                                  bool
+}
+
+type verifLinktestRT struct {
+	t         *transport
+	obs       []VerifLinktestObs
+	threshold int
+	suppress  bool
+	idx       int // current iteration (set by State)
+	inflCall  int // DataMsgInflight calls within the iteration
+	probed    bool
+	down      bool
+	snap      [5]uint64
+	trace     []VerifLinktestIter
+}
+
+func (r *verifLinktestRT) counters() [5]uint64 {
+	m := r.t.metrics
+	return [5]uint64{m.LinktestSuppressedCount(), m.LinktestSendCount(), m.LinktestErrCount(), m.LinktestCreditedCount(), m.LinktestRecvCount()}
+}
+
+func (r *verifLinktestRT) flush() {
+	if r.idx == 0 {
+		return
+	}
+	c := r.counters()
+	r.trace = append(r.trace, VerifLinktestIter{
+		Suppressed: c[0] - r.snap[0], Send: c[1] - r.snap[1], Err: c[2] - r.snap[2],
+		Credited: c[3] - r.snap[3], Recv: c[4] - r.snap[4], Down: r.down,
+	})
+	r.snap = c
+}
+
+func (r *verifLinktestRT) stamp(v int64) int64 {
+	if v >= VerifStampFuture {
+		return int64(1) << 62
+	}
+
+	return v
+}
+
+// State marks the start of a loop iteration.
+func (r *verifLinktestRT) State() hsms.ConnState {
+	r.flush()
+	if r.idx >= len(r.obs) || r.down {
+		return hsms.NotSelectedState
+	}
+	r.idx++
+	r.inflCall = 0
+	r.probed = false
+	// a scripted far-future stamp from the previous iteration must not trip suppression rule 1
+	r.t.lastRecvStamp.Store(0)
+
+	return hsms.SelectedState
+}
+
+func (r *verifLinktestRT) cur() VerifLinktestObs { return r.obs[r.idx-1] }
+
+func (r *verifLinktestRT) LinktestSuppression() bool { return r.suppress }
+
+func (r *verifLinktestRT) DataMsgInflight() int64 {
+	r.inflCall++
+	o := r.cur()
+	if !r.probed {
+		return o.PreInflight
+	}
+	switch r.inflCall {
+	case 2:
+		// failure snapshot taken; the next stamp read is the final re-check
+		r.t.lastRecvStamp.Store(r.stamp(o.RecvFinal))
+
+		return o.Inflight
+	default:
+		return o.InflightFinal
+	}
+}
+
+func (r *verifLinktestRT) WriteMessage(_ context.Context, msg hsms.Message) (hsms.Message, error) {
+	r.probed = true
+	o := r.cur()
+	if o.ProbeFails {
+		// With suppression off the loop never calls DataMsgInflight, so the snapshot and the
+		// final re-check both read this stamp (RecvFinal is then ignored).
+		r.t.lastRecvStamp.Store(r.stamp(o.RecvNow))
+
+		return nil, errors.New("verif: scripted T6 timeout")
+	}
+
+	return msg, nil
+}
+
+func (r *verifLinktestRT) TCPUp(net.Conn)                                          {}
+func (r *verifLinktestRT) TCPDown(error)                                           { r.down = true }
+func (r *verifLinktestRT) CommitSelected() bool                                    { return false }
+func (r *verifLinktestRT) SelectLost()                                             {}
+func (r *verifLinktestRT) T7Expired()                                              {}
+func (r *verifLinktestRT) DeliverOwnedFrame([]byte) error                          { return nil }
+func (r *verifLinktestRT) RouteReply(hsms.Message) bool                            { return false }
+func (r *verifLinktestRT) RouteData(*hsms.DataMessage) error                       { return nil }
+func (r *verifLinktestRT) WriteMessageNoReply(context.Context, hsms.Message) error { return nil }
+func (r *verifLinktestRT) SendAsync(context.Context, hsms.Message) error           { return nil }
+func (r *verifLinktestRT) Done() <-chan struct{}                                   { return nil }
+func (r *verifLinktestRT) Timers() hsms.TimerConfig                                { return hsms.TimerConfig{T6: time.Second} }
+func (r *verifLinktestRT) SessionID() uint16                                       { return 0 }
+func (r *verifLinktestRT) LinktestInterval() time.Duration                         { return time.Nanosecond }
+func (r *verifLinktestRT) LinktestFailThreshold() int                              { return r.threshold }
+func (r *verifLinktestRT) NextSystemBytes() [4]byte                                { return [4]byte{} }
+
+// VerifRunLinktest runs the REAL runLinktest loop synchronously against a scripted runtime and
+// returns what each iteration did. Suppression rule 1 (idle < interval) never fires because the
+// interval is 1ns; rules 2 and 3 and the final re-check are fully scripted.
+func VerifRunLinktest(threshold int, suppress bool, obs []VerifLinktestObs) []VerifLinktestIter {
+	t := newTransport(Config{})
+	// make every small abstract stamp older than any send stamp taken below
+	for t.monoNanos() <= VerifStampSmallMax {
+		time.Sleep(time.Microsecond)
+	}
+	r := &verifLinktestRT{t: t, obs: obs, threshold: threshold, suppress: suppress}
+	t.rt = r
+	r.snap = r.counters()
+	g := &genWG{}
+	g.linktest.Add(1)
+	var sr suppressionRuntime
+	if suppress {
+		sr = r
+	}
+	t.runLinktest(context.Background(), g, time.Nanosecond, sr)
+	if len(r.trace) < r.idx {
+		r.flush() // the disconnecting iteration returns without another State() call
+	}
+
+	return r.trace
+}
